@@ -333,6 +333,8 @@ func runJob3(j job) string {
 		return leafBoth(j.data)
 	case "V3":
 		return entBoth(j.data)
+	case "M3":
+		return encLine(j.data)
 	case "E3":
 		var r string
 		mode := mp4.EncFragFileMode(j.cfg[3] - '0')
@@ -409,10 +411,22 @@ func cmdCorr3(seed uint64, n int, exh int) {
 	for _, d := range genV3Inputs(r, n) {
 		jobs = append(jobs, job{kind: "V3", cfg: "-", data: d})
 		metas = append(metas, "V\t"+hx.Hex(d))
+		jobs = append(jobs, job{kind: "M3", cfg: "-", data: d})
+		metas = append(metas, "M\t")
+	}
+	for _, pl := range []int{0, 1, 7, 300} {
+		for _, d := range [][]byte{mdat(pl), lmdat(pl)} {
+			jobs = append(jobs, job{kind: "M3", cfg: "-", data: d})
+			metas = append(metas, "M\t")
+		}
 	}
 	res := runJobs(jobs, nprocs())
 	for i, m := range metas {
-		if m[0] == 'V' {
+		if m[0] == 'M' {
+			if res[i] != "-" {
+				fmt.Fprintf(out, "M\tm%d\t%s\n", i, res[i])
+			}
+		} else if m[0] == 'V' {
 			fmt.Fprintf(out, "V\tv%d\t%s\t%s\n", i, m[2:], res[i])
 		} else if m[0] == 'T' {
 			fmt.Fprintf(out, "T\tt%d\t%s\t%s\n", i, m[2:], res[i])
